@@ -11,6 +11,14 @@ From Prov Require Import Str Sexp Values Spec.
 Import ListNotations.
 Open Scope string_scope.
 
+(* the lexical space of xsd:boolean (XML Schema Part 2, 3.2.2.1): exactly true, false, 1, 0 — an independent reader
+   does not share prov.model.parse_boolean's case-insensitivity ("True" is not an xsd:boolean) *)
+Definition xsd_boolean (s : string) : option bool :=
+  if (String.eqb s "false" || String.eqb s "0")%bool then Some false
+  else if (String.eqb s "true" || String.eqb s "1")%bool then Some true
+  else None.
+
+
 Inductive xnode : Type :=
 | XE (ns local : string) (attrs : list (string * string * string))
      (scope : list (string * string)) (text : string) (kids : list xnode).
@@ -108,7 +116,7 @@ Definition read_value (ft : ftable) (scope : list (string * string)) (attrs : li
                 | _ => None
                 end
               else if String.eqb tl "boolean" then
-                match parse_boolean text with
+                match xsd_boolean text with
                 | Some b => Some (L [A "bool"; A (if b then "true" else "false")])
                 | None => Some (L [A "lit"; A text; A (pair_uri (tns, tl)); A "none"])   (* ill-formed: still a literal of that type *)
                 end
